@@ -150,6 +150,21 @@ func scripts() []Script {
 	shared("shared-missing-inner", "{\n  \"pet\": @pet\n}", pet[:1], tagRule, shOps)
 	shared("shared-missing-inner", "@pet | @petName", pet[:2], tagRule, shOps)
 	shared("shared-other-root", "{\n  \"n\": @petName,\n  \"t\": \"u\" // {enum: @tags}\n}", pet[1:], tagRule, shOps)
+	// recursion through a choice whose first alternative is the recursive one: the example builder walks the
+	// alternatives up to its cut-off - twice on the same object, and on type objects shared by two roots
+	tree := []sut.Named{{Name: "@node", Text: "{\n  \"id\": 1,\n  \"next\": @node | @leaf\n}"}, {Name: "@leaf", Text: `"leaf"`}, {Name: "@al", Text: "@node"}}
+	recOps := [][]string{{"example", "example", "check", "example"}, {"check", "example", "openapi", "example", "deref"}}
+	add("valid-recursive-choice", "schema", "{\n  \"tree\": @node\n}", tree, nil, recOps)
+	add("valid-recursive-choice", "schema", "{\n  \"a\": @node,\n  \"b\": @al,\n  \"c\": [@node | @leaf]\n}", tree, nil, recOps)
+	shared("shared-recursive-choice", "{\n  \"tree\": @node\n}", tree, nil, recOps)
+	shared("shared-recursive-choice", "@al | @leaf", tree, nil, recOps[:1])
+	// regex schemas as types: a fresh object per script, with and without earlier use of that object
+	code := []sut.Named{{Name: "@code", Text: "/[a-z]{6}-[0-9]{4}/", Regex: true}}
+	rxOps := [][]string{{"check", "example", "openapi", "example"}, {"example", "typeopenapi", "check"}}
+	add("valid-regex-type", "schema", "{\n  \"code\": @code\n}", code, nil, rxOps)
+	add("valid-regex-type-preused", "schema", "{\n  \"code\": @code\n}", code, nil, rxOps)
+	add("valid-regex-type", "schema", "[@code, @code]", code, nil, rxOps[:1])
+	add("valid-regex-type-preused", "schema", "\"abcdef-1234\" // {type: \"@code\"}", code, nil, rxOps[:1])
 	// a root schema without an example value (empty text, comment only) that still gets the parsed types
 	// registered: nothing of that may reach the schemas loaded afterwards
 	shared("shared-empty-root", "# nothing here", pet, tagRule, [][]string{{"check", "example", "ast", "len"}, {"len", "check"}})
@@ -281,6 +296,14 @@ func build(sc Script, st *store) *object {
 			k := t.Name + "\x00" + t.Text
 			if sc.Share && st != nil && st.types[k] != nil {
 				ts = st.types[k]
+			} else if t.Regex {
+				r := regex.New(t.Name, t.Text)
+				if strings.Contains(sc.Class, "preused") {
+					// the caller has already asked this object for examples before it registers it as a type
+					_, _ = r.Example()
+					_, _ = r.Example()
+				}
+				ts = r
 			} else {
 				js := jschema.New(t.Name, t.Text)
 				for _, r := range sc.Rules {
